@@ -297,6 +297,10 @@ def line_search(
             )
 
         if task[:2] == b"FG":
+            if not np.isfinite(steplength):
+                # non-finite objective value or slope at the previous trial: the
+                # safeguarded interpolation has no finite step left to propose
+                break
             steplength_0 = steplength
             # rounding may push x0 + steplength * d out of the bounds by one ulp
             f_m1, dphi_m1 = sf.fun_and_grad(np.clip(x0 + steplength * d, lb, ub))
